@@ -26,7 +26,7 @@ def gen(seed, idx, tier):
         terminal_psi=tp,
         refuse=0.25,
         steps=(3, 25),
-        field_kinds=("zero", "const", "ramp", "pw", "sin", "sin"),
+        field_kinds=("zero", "const", "ramp", "pw", "sin", "sin", "wave"),
         screening=rnd.random() < 0.12,
         p_remesh=0.25,
         p_overlap=0.3,
